@@ -4,7 +4,7 @@ argues operation by operation; an entry point that appeared after the contracts 
 argued about, so the check of every property that reads the file answers UNDECIDED (exit 2) instead of "holds".
 Private helpers are not entry points: they are reached (and verified or executed) through their callers."""
 import glob, json, os, re
-from rsx import Source, _items_in, _foreign_cfg
+from rsx import Source, _items_in, _foreign_cfg, match_close, OPEN
 
 ROOT = os.path.normpath(os.path.join(os.path.dirname(os.path.abspath(__file__)), ".."))
 
@@ -197,7 +197,22 @@ def uncontracted_table(repo, files):
                 if any(label.replace(" / ", " / ").endswith(c.split(" / ")[-1]) and c.split(" / ")[0] in label for c in contracted.get(f, ())):
                     continue
             table.setdefault(f, {})[label] = sha
+        ext = extracted_values()
+        for label, sha in value_items(path).items():
+            last = label.split(" / ")[-1]
+            if (f, last.split()[-1]) in ext and last.split()[0] in ("const", "static", "macro"):
+                continue
+            table.setdefault(f, {})["[value] " + label] = sha
     return table
+
+
+def extracted_values():
+    """(file, NAME) of the const / static / bitflags items some Verus unit extracts (their text reaches the verifier)"""
+    out = set()
+    for u in sorted(glob.glob(os.path.join(ROOT, "units", "*", "unit.rs")) + glob.glob(os.path.join(ROOT, "units", "common", "*.rs"))):
+        for m in re.finditer(r"^//@(?:extract_const|bitflags|tls_init_expr)\s+file=(\S+)\s+name=(\w+)", open(u).read(), re.M):
+            out.add((m.group(1), m.group(2)))
+    return out
 
 
 def modified_uncontracted(pid, repo, cfg, props):
@@ -213,7 +228,17 @@ def modified_uncontracted(pid, repo, cfg, props):
             fns, _ = all_fns(path)
         except Exception:
             continue
+        vals = None
         for label, sha in inv[f].items():
+            if label.startswith("[value] "):
+                if vals is None:
+                    try:
+                        vals = value_items(path)
+                    except Exception:
+                        vals = {}
+                if vals.get(label[len("[value] "):]) != sha:     # changed or gone
+                    out.append(f"{f}: {label[len('[value] '):]} (a static / const / item macro outside every function)")
+                continue
             if label in fns and fns[label][0] != sha:
                 out.append(f"{f}: {label}")
     return out
@@ -288,4 +313,87 @@ def changed_outside_own_units(pid, repo, cfg, props):
             if f in kani_files and l not in notex.get(f, set()):
                 continue
             out.append(f"{f}: {l}")
+    return out
+
+
+# ---------------------------------------------------------------------------------------------------------------------
+# VALUE ITEMS outside every function: `static` / `const` items with their initialisers and item-position macro
+# invocations (`thread_local! { static X = <expr> }`, `bitflags! { .. }`, `pin_project! { .. }`).  They carry behaviour
+# (a limit, a timeout, the initialiser of a per-thread counter) but are not functions, so the function hashes do not see
+# them.  Those a unit extracts (`//@extract_const`, `//@bitflags`) are under contract; the text of the others is hashed
+# and a change makes every check that reads the file answer UNDECIDED.
+def value_items(path):
+    s = Source(path)
+    toks = s.toks
+    out = {}
+
+    def scan_gap(lo, hi, trail):
+        i = lo
+        while i < hi:
+            # one item-like piece: up to `;` at depth 0, or a macro invocation's closing delimiter
+            j = i
+            first = None
+            is_macro = False
+            while j < hi:
+                t = toks[j]
+                if t.kind == "punct" and t.text == "#" and j + 1 < hi and toks[j + 1].text in ("[", "!") and first is None:
+                    k = j + 1 if toks[j + 1].text == "[" else j + 2
+                    j = match_close(toks, k) + 1; i = j
+                    continue
+                if first is None and t.kind in ("ident",) and t.text in ("pub", "crate"):
+                    j += 1; continue
+                if first is None and t.text == "(" and j > lo and toks[j - 1].text == "pub":
+                    j = match_close(toks, j) + 1; continue
+                if first is None:
+                    first = j
+                if t.kind == "punct" and t.text == "!" and j + 1 < hi and toks[j + 1].text in OPEN and all(
+                        x.kind == "ident" or x.text == "::" for x in toks[first:j]):
+                    e = match_close(toks, j + 1)
+                    is_macro = True
+                    j = e + 1
+                    if j < hi and toks[j].text == ";": j += 1
+                    break
+                if t.kind == "punct" and t.text in OPEN:
+                    j = match_close(toks, j) + 1; continue
+                if t.kind == "punct" and t.text == ";":
+                    j += 1; break
+                j += 1
+            if first is not None and first < hi:
+                head = toks[first].text
+                text = re.sub(r"\s+", " ", " ".join(x.text for x in toks[first:j]))
+                label = None
+                if is_macro:
+                    nm = "".join(x.text for x in toks[first:j] if True)
+                    mname = re.match(r"([\w:]+?)!", "".join(x.text for x in toks[first:first + 8]))
+                    inner = re.search(r"\b(?:static|struct|enum|const)\s+(\w+)", text)
+                    label = "macro " + (mname.group(1) if mname else head) + "!" + (" " + inner.group(1) if inner else "")
+                elif head in ("static", "const") and first + 1 < hi and toks[first + 1].text not in ("fn", "unsafe", "async"):
+                    k = first + 1
+                    if toks[k].text == "mut": k += 1
+                    label = head + " " + toks[k].text
+                if label:
+                    label = " / ".join(trail + [label])
+                    n = 2
+                    base = label
+                    while label in out:
+                        label = f"{base} #{n}"; n += 1
+                    out[label] = hashlib.sha256(text.encode()).hexdigest()[:16]
+            i = max(j, i + 1)
+
+    def walk(lo, hi, trail):
+        pos = lo
+        for it in _items_in(s.src, toks, lo, hi):
+            h = it.header.split()
+            skip = any("test" in a for a in it.attrs) or any(_foreign_cfg(a) for a in it.attrs) or any("cfg(kani)" in a for a in it.attrs)
+            # the attributes of this item sit right before it.start: they belong to the item, not to the gap
+            scan_gap(pos, it.start, trail)
+            pos = it.body_close + 1
+            if skip or it.body_open is None:
+                continue
+            if h[0] in ("impl", "mod", "trait"):
+                if h[0] == "mod" and len(h) > 1 and h[1] in ("tests", "test", "verif_kani"):
+                    continue
+                walk(it.body_open + 1, it.body_close, trail + [re.sub(r"\s+", " ", it.header)[:70]])
+        scan_gap(pos, hi, trail)
+    walk(0, len(toks), [])
     return out
